@@ -10,7 +10,14 @@ carry counters:
                 differentiation in {user, finite differences}, [DOE: eval_jac, n_processes])      <= k deviations
   x the termination criterion forced to fire first in {budget, ftol, xtol, max_time (virtual clock), KKT}
     (the NaN criterion is carried by the problems nan / nan_ineq)
-  + histories: ordered pairs of executions on the same problem with / without counter reset.
+  + histories: ordered pairs of executions on the same problem with / without counter reset;
+  + histories "pre-populated database": before the execution the database holds, at the very points the algorithm is
+    going to visit (dry reference run of the same deterministic algorithm / the DOE samples), empty entries
+    (Database.store(x, {})), entries with only the objective / the constraints / the Jacobians, or complete entries;
+    budgets smaller and larger than the number of pre-registered points;
+  + parallel (n_processes=2) and serial DOEs of 20 samples on functions that take normalized inputs
+    (normalize_design_space=True, or after a normalized optimizer on the same problem) on bounds that are not exactly
+    representable ([-3.3, 7.1], [0.1, 0.7]).
 
 Unsuitable (algorithm, problem) pairs are rejected by the library itself ("... is not adapted to the problem")
 and counted per algorithm (coverage.rejected), never silently.
@@ -35,9 +42,13 @@ Oracle = the statement, evaluated per execution (see ``judge``):
 Oracle boundaries (accepted readings, documented where they are applied):
   * FD probe rule: a call of an original callable is a derivative-approximation probe iff a frame of
     ``gemseo/utils/derivatives/*`` is on the Python call stack (exact tag, no distance threshold).
-  * B2 counts the points that were not recorded before the execution: completing an entry left incomplete by an
-    earlier execution (objective missing where a constraint was stored, a gradient at a recorded point) creates no
-    entry and consumes no budget.  Derivative calls are reported under their own id (budget-points-with-jacobians).
+  * "new entry" = a key absent before the execution, or present with an EMPTY output dictionary and filled by it; an empty
+    or partial entry is not an evaluated point.  B2 first counts the points that had no recorded output at all
+    (budget-points); the calls of original functions at points whose entry held only SOME outputs are never tested against
+    the budget by GEMSEO and are reported under budget-points-completing-partial-entries (coarse signature, known finding).
+    Derivative calls are reported under their own id (budget-points-with-jacobians).
+  * in a parallel DOE the keys must be the generated samples BITWISE (the samples are pre-registered and the results are
+    stored under them), whatever the normalization; in a serial DOE on normalized functions the tolerance below applies.
   * ``use_database=False``: nothing is recorded, the evaluation counter never moves, so GEMSEO has no means to
     enforce N; B1 is trivially true and B2 is reported under its own invariant id (budget-points-no-database).
     A run that has made 40 N + 100 real evaluations is aborted by the harness functions (``Runaway``).
@@ -86,7 +97,13 @@ TABLES = [
     {"lb": -2.0, "ub": 3.0, "x0": [1.5, -1.0], "c": [1.0, 0.5], "ilb": 0, "iub": 4, "i0": 1, "ic": 2.3},
     {"lb": -1.0, "ub": 4.0, "x0": [3.0, 0.5], "c": [0.5, 2.0], "ilb": -2, "iub": 3, "i0": 2, "ic": -0.6},
     {"lb": 0.5, "ub": 2.5, "x0": [2.25, 0.75], "c": [1.25, 1.5], "ilb": 1, "iub": 6, "i0": 5, "ic": 2.4},
+    # bounds that are not exactly representable: unnormalize(normalize(x)) != x for a large share of the points
+    # (used by the phases "pre-populated database" and "parallel DOE on normalized functions" for every seed)
+    {"lb": -3.3, "ub": 7.1, "x0": [0.5, 0.5], "c": [0.3, -0.2], "ilb": -1, "iub": 4, "i0": 1, "ic": 1.7},
+    {"lb": 0.1, "ub": 0.7, "x0": [0.6, 0.2], "c": [0.3, 0.45], "ilb": 0, "iub": 3, "i0": 2, "ic": 1.2},
 ]
+N_SEED_TABLES = 3  # the first tables rotate with VERIF_SEED
+ROUNDING_TABLES = [3, 4]
 
 SETTING_AXES = {
     "normalize": ["default", "flip"],
@@ -456,6 +473,7 @@ def execute_once(problem, probe, info, run, T, pname):
         return obs
     db = problem.database
     keys0 = _keys(db)
+    filled0 = {np.asarray(k_.wrapped_array, dtype=float).tobytes(): bool(v_) for k_, v_ in db.items()}
     mark = len(probe.calls)
     obs["counter_before"] = problem.evaluation_counter.current
     probe.cap, probe.n_real, probe.runaway = 40 * n + 100, 0, False
@@ -468,9 +486,15 @@ def execute_once(problem, probe, info, run, T, pname):
     obs["n_calls"] = len(calls)
     keys1 = _keys(db)
     obs["prefix_kept"] = len(keys1) >= len(keys0) and all(np.array_equal(a, b) for a, b in zip(keys0, keys1))
-    obs["old_keys"] = keys0
-    obs["new_keys"] = keys1[len(keys0):]
-    obs["new_entries"] = [dict(db[k]) for k in list(db)[len(keys0):]]
+    # "recorded before" = an entry with at least one output; an empty entry (Database.store(x, {}), what a parallel DOE
+    # pre-registers, what Database.filter leaves) is not an evaluated point.  "new" = absent before, or empty before and
+    # filled by this execution (database order).
+    obs["all_keys"] = keys1
+    obs["old_keys"] = [k_ for k_ in keys0 if filled0[k_.tobytes()]]
+    fresh = [(k_, dict(v_)) for k_, (_, v_) in zip(keys1, db.items()) if k_.tobytes() not in filled0 or (not filled0[k_.tobytes()] and v_)]
+    obs["new_keys"] = [k_ for k_, _ in fresh]
+    obs["new_entries"] = [v_ for _, v_ in fresh]
+    obs["preregistered"] = sum(1 for f_ in filled0.values() if not f_)
     obs["counter_after"] = problem.evaluation_counter.current
     obs["counter_max"] = problem.evaluation_counter.maximum
     real = [c for c in calls if not c[3]]
@@ -592,24 +616,29 @@ def _non_default(run):
     return {k: v for k, v in st.items() if DEFAULTS.get(k) != v}
 
 
-def judge(obs, run, pname, info, history="single", first=None):
+def judge(obs, run, pname, info, history="single", first=None, tags=None):
     """Return the list of (signature, message) broken by one execution (empty when the statement holds)."""
     bad = []
     kind, algo, n, st = run["kind"], run["algo"], run["N"], run["settings"]
     fam = family(kind, algo)
     # algorithm for the optimizers (each wraps different code), library class for the DOEs (they share one loop)
     shape = {"family": fam, "algorithm": algo if kind == "opt" else library_of(kind, algo), "problem_class": PROBLEM_CLASS[pname], "history": history, **_non_default(run)}
+    shape.update(tags or {})
     if first is not None:
         shape["after"] = first["algo"] if first["kind"] == "opt" else library_of("doe", first["algo"])
         shape.update({f"after_{k_}": v_ for k_, v_ in _non_default(first).items()})
 
     def v(inv, msg, **extra):
         sig = {"invariant": inv, **shape, **extra}
+        if inv == "budget-points-completing-partial-entries":
+            # one root cause in ProblemFunction, whatever the algorithm: coarse signature
+            sig = {"invariant": inv, "family": fam, "history": history, "entries": (tags or {}).get("prefill", "left-by-the-first-execution")}
         bad.append((sig, f"{inv}: {msg}"))
 
     n_new = len(obs["new_keys"])
-    # oracle boundary: completing an entry recorded by an earlier execution (e.g. the objective at a point where only
-    # a constraint was stored) creates no entry and consumes no budget; B2 counts the points not recorded before
+    # B2 first counts the points without any recorded output before the execution (budget-points); the calls that complete
+    # an entry holding only some outputs (e.g. the objective where only a constraint was stored) create no entry and are
+    # never tested against the budget by GEMSEO: they are reported under budget-points-completing-partial-entries
     old_bytes = {np.asarray(k_, dtype=float).tobytes() for k_ in obs["old_keys"]}
     n_pts = len([p_ for p_ in obs["func_points"] if p_ not in old_bytes])
     use_db = st["use_database"]
@@ -637,8 +666,17 @@ def judge(obs, run, pname, info, history="single", first=None):
         if n_new > budget:
             v("budget-database", f"{n_new} new database entries for max_iter={n}")
         inv = "budget-points" if use_db else "budget-points-no-database"
+        n_pts_all = len(obs["func_points"])
         if n_pts > budget + extra_pts:
             v(inv, f"the original functions were called at {n_pts} distinct points for max_iter={n}" + (f" (+{extra_pts} sub-problem entries)" if extra_pts else "") + f"; {n_new} new database entries")
+        elif use_db and n_pts_all > budget + extra_pts:
+            # the literal statement: a point whose entry held only some outputs was not a fully evaluated point, and the
+            # original functions are called there without any budget test (the guard is "the entry is empty")
+            v(
+                "budget-points-completing-partial-entries",
+                f"the original functions were called at {n_pts_all} distinct points for max_iter={n}: {n_pts} unrecorded points and "
+                f"{n_pts_all - n_pts} points whose entry held only some of the outputs before the execution; {n_new} new database entries",
+            )
         elif use_db:
             # derivatives asked at a point recorded by an earlier execution create nothing: only unrecorded points count
             n_all_new = len([p_ for p_ in dict.fromkeys(obs["func_points"] + obs["jac_points"]) if p_ not in old_bytes])
@@ -677,10 +715,10 @@ def judge(obs, run, pname, info, history="single", first=None):
             v("result-missing", f"execute returned {obs['result_type']}")
         else:
             m = obs.get("message")
-            if n_new + len(obs["old_keys"]) > 0 and isinstance(m, str) and "GEMSEO stopped the driver" in m:
+            if len(obs["all_keys"]) > 0 and isinstance(m, str) and "GEMSEO stopped the driver" in m:
                 # R3 (only promised for the runs stopped by GEMSEO; an LP solver, e.g., reports its own solution)
                 xo = obs.get("x_opt")
-                allk = obs["old_keys"] + obs["new_keys"]
+                allk = obs["all_keys"]
                 if xo is None:
                     v("result-not-from-history", "x_opt is None although the database is not empty")
                 else:
@@ -697,7 +735,10 @@ def judge(obs, run, pname, info, history="single", first=None):
         # the functions take normalized inputs when this DOE asked for it (its default is an unnormalized design
         # space) or when an earlier execution preprocessed them so
         normalized = st["normalize"] == "flip" or obs.get("functions_normalized", False)
-        tol = 8 * np.finfo(float).eps * float(max(np.abs(info["lb"]).max(), np.abs(info["ub"]).max(), (info["ub"] - info["lb"]).max())) if normalized else 0.0
+        tol_pts = 8 * np.finfo(float).eps * float(max(np.abs(info["lb"]).max(), np.abs(info["ub"]).max(), (info["ub"] - info["lb"]).max())) if normalized else 0.0
+        # a parallel DOE pre-registers the exact samples and its callback stores the results under the exact samples:
+        # there the keys are the generated samples bitwise, whatever the normalization
+        tol = tol_pts if serial else 0.0
 
         def same(a, b):
             return np.array_equal(a, b) if tol == 0.0 else bool(np.all(np.abs(a - b) <= tol))
@@ -716,7 +757,8 @@ def judge(obs, run, pname, info, history="single", first=None):
         failing_pts = obs.get("failing_points", [])
 
         def is_failing(pt):
-            return any(same(np.asarray(pt, dtype=float), f_) for f_ in failing_pts)
+            # the failing points are logged as the constraint saw them (round trip of the sample in normalized mode)
+            return any(bool(np.all(np.abs(np.asarray(pt, dtype=float) - f_) <= tol_pts)) for f_ in failing_pts)
 
         prefix_allowed = (not st["reset"] and obs["counter_before"] > 0) or st["stop"] == "time"
         if use_db:
@@ -763,7 +805,7 @@ def judge(obs, run, pname, info, history="single", first=None):
             v("doe-no-database", f"{n_new} entries recorded with use_database=False")
         if serial and use_db and tol == 0.0:
             # "records them": every point at which an original function was really called is a database key
-            rec = {np.asarray(k_, dtype=float).tobytes() for k_ in old + new}
+            rec = {np.asarray(k_, dtype=float).tobytes() for k_ in obs["all_keys"]}
             lost_pts = [p_ for p_ in obs["func_points"] if p_ not in rec]
             if lost_pts:
                 v("doe-evaluated-not-recorded", f"original functions were called at {[np.frombuffer(p_, dtype=float).tolist() for p_ in lost_pts][:4]} but these samples have no database entry")
@@ -802,6 +844,40 @@ def observe_raise(obs, probe):
     obs["failing_points"] = pts
 
 
+PREFILL_MODES = ["empty", "objective", "constraints", "jacobian", "complete"]
+
+
+def prefill_database(problem, pname, T, run, pre):
+    """History axis "pre-populated database": before the execution the database holds entries at the very points the
+    (deterministic) algorithm is going to visit, taken from a dry reference run of the same algorithm with the budget
+    pre["ref_N"] on a twin problem: empty entries (Database.store(x, {})), entries with only some outputs, or complete ones.
+    Returns None, or the reason why the case cannot be built."""
+    ref_problem, ref_probe, ref_info = build_problem(pname, T, run["settings"]["diff"])
+    install_clock()
+    ref_obs = execute_once(ref_problem, ref_probe, ref_info, dict(run, N=pre["ref_N"]), T, pname)
+    if ref_obs["status"] != "ran":
+        return ref_obs["status"] + ": " + str(ref_obs.get("reason", ""))[:60]
+    if ref_obs.get("exception"):
+        return "the reference run raised " + ref_obs["exception"][:60]
+    mode = pre["mode"]
+    constraint_names = set(ref_info["names"][1:])
+    n_stored = 0
+    for key, entry in ref_problem.database.items():
+        if mode == "empty":
+            data = {}
+        elif mode == "objective":
+            data = {k: v for k, v in entry.items() if k == ref_info["names"][0]}
+        elif mode == "constraints":
+            data = {k: v for k, v in entry.items() if k in constraint_names}
+        elif mode == "jacobian":
+            data = {k: v for k, v in entry.items() if k.startswith("@")}
+        else:
+            data = dict(entry)
+        problem.database.store(np.array(key.wrapped_array), data)
+        n_stored += 1
+    return None if n_stored else "the reference run recorded nothing"
+
+
 def run_history(case):
     """Execute the runs of a case on one problem; return [(run, obs, violations)]."""
     T = TABLES[case.get("table", 0)]
@@ -813,6 +889,15 @@ def run_history(case):
         os.close(fd)
     out = []
     history = "single" if len(runs) == 1 else "second-run"
+    tags = {}
+    if case.get("table", 0) in ROUNDING_TABLES:
+        tags["bounds"] = "not-representable"
+    pre = case.get("prefill")
+    if pre:
+        tags["prefill"] = pre["mode"]
+        status = prefill_database(problem, pname, T, runs[0], pre)
+        if status is not None:
+            return [(runs[0], {"status": "not-applicable", "reason": f"prefill: {status}"}, [])]
     for i, run in enumerate(runs):
         install_clock()
         obs = execute_once(problem, probe, info, run, T, pname)
@@ -820,7 +905,7 @@ def run_history(case):
             out.append((run, obs, []))
             break
         observe_raise(obs, probe)
-        bad = judge(obs, run, pname, info, history="single" if i == 0 else history, first=runs[0] if i else None)
+        bad = judge(obs, run, pname, info, history="single" if i == 0 else history, first=runs[0] if i else None, tags=tags)
         out.append((run, obs, bad))
         if obs.get("exception"):
             break
@@ -1024,7 +1109,7 @@ def run(ctx):
     global SCRATCH
     SCRATCH = ctx.scratch
     tally = ctx.tally
-    table = ctx.seed % len(TABLES)
+    table = ctx.seed % N_SEED_TABLES
     opt_algos, doe_algos = algo_lists()
     algos = [("opt", a) for a in opt_algos] + [("doe", a) for a in doe_algos]
     if ctx.only:
@@ -1100,6 +1185,53 @@ def run(ctx):
 
     pmap(check_case, phase3(), tally, jobs=ctx.jobs, chunk=10, timeout=CASE_TIMEOUT)
 
+    # phase 4: histories with a pre-populated database (empty / partial / complete entries at the points the algorithm
+    # visits), budgets smaller and larger than the number of pre-registered points
+    def phase4():
+        tables4 = [table, ROUNDING_TABLES[0]] if ctx.thorough else [table]
+        for kind, algo in algos:
+            names = acc.get((kind, algo), [])
+            plist = [p for p in DEVIATION_PROBLEMS if p in names][: 2 if ctx.thorough else 1]
+            if kind == "opt":
+                budgets4 = [(8, 3), (4, 8)] + ([(12, 5), (3, 12)] if ctx.thorough else [])
+            else:
+                budgets4 = [(3, 3), (12, 12)]
+            variants = [DEFAULTS] + ([dict(DEFAULTS, normalize="flip")] if ctx.thorough else [])
+            for pname in plist:
+                for mode in PREFILL_MODES:
+                    if mode == "constraints" and pname in ("quad", "biobj"):
+                        continue
+                    for tb in tables4:
+                        for st in variants:
+                            for ref_n, n in budgets4:
+                                yield {"problem": pname, "table": tb, "prefill": {"mode": mode, "ref_N": ref_n}, "runs": [make_run(kind, algo, n, st)]}
+
+    pmap(check_case, phase4(), tally, jobs=ctx.jobs, chunk=5, timeout=CASE_TIMEOUT)
+
+    # phase 5: parallel (and serial) DOEs on functions that take normalized inputs - normalize_design_space=True, or after
+    # a normalized optimizer on the same problem - on bounds for which the normalization round trip is not bit-exact, with
+    # 20 samples: the keys must be the generated samples, bitwise in parallel mode, in generation order
+    def phase5():
+        for kind, algo in algos:
+            if kind != "doe":
+                continue
+            for pname in ["ineq", "quad"] if ctx.thorough else ["ineq"]:
+                if pname not in acc.get((kind, algo), []):
+                    continue
+                for tb in ROUNDING_TABLES:
+                    for n_proc in (2, 1):
+                        flips = [dict(DEFAULTS, normalize="flip", n_processes=n_proc)]
+                        if ctx.thorough:
+                            flips.append(dict(DEFAULTS, normalize="flip", n_processes=n_proc, eval_jac=True))
+                        for st in flips:
+                            yield {"problem": pname, "table": tb, "runs": [make_run(kind, algo, 20, st)]}
+                        for first in ["SLSQP"] + (["L-BFGS-B", "NLOPT_COBYLA"] if ctx.thorough else []):
+                            if first in opt_algos:
+                                st2 = dict(DEFAULTS, n_processes=n_proc)
+                                yield {"problem": pname, "table": tb, "runs": [make_run("opt", first, 3, DEFAULTS), make_run(kind, algo, 20, st2)]}
+
+    pmap(check_case, phase5(), tally, jobs=ctx.jobs, chunk=4, timeout=CASE_TIMEOUT)
+
     rejected = {}
     for algo, pname, reason in sorted(tally.sets.get("rejected", set())):
         rejected.setdefault(algo, {})[pname] = reason
@@ -1133,7 +1265,9 @@ def run(ctx):
         "level": LEVEL,
         "rule": "one case = one execution history (1 or 2 driver executions) on a fresh harness problem; phase 1: every algorithm "
         "x problem x budget at default settings; phase 2: every assignment of the setting axes with <= k deviations on the "
-        "accepted pairs; phase 3: ordered pairs of executions x counter reset. Non-trivial = the library accepted the case and "
+        "accepted pairs; phase 3: ordered pairs of executions x counter reset; phase 4: executions on a database pre-populated "
+        "with empty / partial / complete entries at the points of a dry reference run; phase 5: parallel and serial DOEs (20 samples) on "
+        "normalized functions over bounds that are not exactly representable. Non-trivial = the library accepted the case and "
         "at least one original function was really called (or an entry recorded) during the last execution.",
         "exhaustive": not caps,
         "bounds": {
@@ -1143,6 +1277,9 @@ def run(ctx):
             "axes": {a: len(v) for a, v in SETTING_AXES.items()},
             "pair_algorithms": len(pair_algos),
             "pair_budgets": budgets,
+            "prefill_modes": PREFILL_MODES,
+            "rounding_bound_tables": [[TABLES[i]["lb"], TABLES[i]["ub"]] for i in ROUNDING_TABLES],
+            "parallel_doe_samples": 20,
             "value_table": table,
         },
         "assumptions": [
